@@ -259,7 +259,8 @@ impl C05 {
 
     /// the shipped binary: file mode and the interactive prompt on stdin
     fn binary_case(&self, which: u64, quick: bool, st: &mut Stats) {
-        let bin = "/verif/harness/target-repo/release/nederlang";
+        let bin_s = format!("{}/harness/target-repo/release/nederlang", crate::sup::root());
+                let bin = bin_s.as_str();
         if !std::path::Path::new(bin).exists() {
             st.inconclusive(format!("{} not built", bin));
             return;
